@@ -1,4 +1,5 @@
 import Beetswap.Proofs.Codec
+import Beetswap.Generated
 /-!
 # C11 — Wire format conforms to the Bitswap 1.2.0 protobuf schema
 
@@ -84,5 +85,59 @@ example : MsgValid [.unk (.varint 9 300), .pendingBytes 5, .wantlist [.full 0, .
     rcases hg with rfl | rfl
     · simp [WantlistFld.Valid, BoolWire]
     · simp [WantlistFld.Valid, Unk.Valid, Unk.num, Unk.wt, wantlistKnown, bytesOk]
+
+/-! ### Translator obligations: the schema and the generated tag tables in /repo -/
+
+/-- The Bitswap 1.2.0 message schema: (message, label, type, field, number). -/
+def bitswap120Schema : List (String × String × String × String × Nat) :=
+  [("Entry", "singular", "bytes", "block", 1), ("Entry", "singular", "int32", "priority", 2),
+   ("Entry", "singular", "bool", "cancel", 3), ("Entry", "singular", "WantType", "wantType", 4),
+   ("Entry", "singular", "bool", "sendDontHave", 5),
+   ("Wantlist", "repeated", "Entry", "entries", 1), ("Wantlist", "singular", "bool", "full", 2),
+   ("Block", "singular", "bytes", "prefix", 1), ("Block", "singular", "bytes", "data", 2),
+   ("BlockPresence", "singular", "bytes", "cid", 1),
+   ("BlockPresence", "singular", "BlockPresenceType", "type", 2),
+   ("Message", "singular", "Wantlist", "wantlist", 1), ("Message", "repeated", "Block", "payload", 3),
+   ("Message", "repeated", "BlockPresence", "blockPresences", 4),
+   ("Message", "singular", "int32", "pendingBytes", 5)]
+
+def bitswap120Enums : List (String × Nat × String) :=
+  [("WantType", 0, "Block"), ("WantType", 1, "Have"),
+   ("BlockPresenceType", 0, "Have"), ("BlockPresenceType", 1, "DontHave")]
+
+/-- proto3 wire type and quick-protobuf accessor kind of a field type. -/
+def kindOf (ty : String) : Nat × String :=
+  if ty == "bytes" then (2, "bytes")
+  else if ty == "int32" then (0, "int32")
+  else if ty == "bool" then (0, "bool")
+  else if ty == "WantType" || ty == "BlockPresenceType" then (0, "enum")
+  else (2, "message")
+
+/-- (message, tag = number * 8 + wire type, accessor kind) derived from the schema. -/
+def specTags : List (String × Nat × String) :=
+  bitswap120Schema.map fun (m, _, ty, _, n) => (m, n * 8 + (kindOf ty).1, (kindOf ty).2)
+
+theorem schema_is_spec : Generated.implSchema = bitswap120Schema := by decide
+
+theorem enums_are_spec :
+    Generated.implSchemaEnums = bitswap120Enums ∧ Generated.implEnumTable = bitswap120Enums := by decide
+
+/-- Every reader arm and every writer line of `proto/message.rs` uses the tag and the accessor
+the schema dictates, and there are no others. (A symmetric change of reader and writer, which a
+round-trip test cannot see, breaks this.) -/
+theorem read_table_matches :
+    (Generated.implReadTable.map fun (m, tag, _, fn, _) => (m, tag, fn)).length = specTags.length ∧
+    ∀ r ∈ specTags, (r.1, r.2.1, "read_" ++ r.2.2) ∈
+      (Generated.implReadTable.map fun (m, tag, _, fn, _) => (m, tag, fn)) := by decide
+
+theorem write_table_matches :
+    Generated.implWriteTable.length = specTags.length ∧
+    ∀ r ∈ specTags, (r.1, r.2.1, "write_" ++ r.2.2) ∈ Generated.implWriteTable := by decide
+
+/-- Repeated fields are appended, singular scalars replaced, the singular message field set. -/
+theorem read_modes_match :
+    ∀ r ∈ Generated.implReadTable,
+      (r.2.2.2.2 = "push" ↔ (r.1, "repeated") ∈ bitswap120Schema.map fun (m, l, _, f, _) =>
+        if f == r.2.2.1 || (f == "type" && r.2.2.1 == "type_pb") then (m, l) else ("", "")) := by decide
 
 end Beetswap.Props.C11
